@@ -472,6 +472,19 @@ class Interp:
                         if x not in o:
                             o.append(x)
                     return K(None)
+                if meth in ("difference", "intersection", "union", "symmetric_difference") and len(args) == 1:
+                    other = self.iterate(args[0], st)
+                    if other is None:
+                        return U(meth + " with unknown iterable")
+                    if meth == "difference":
+                        res_s = [x for x in o if x not in other]
+                    elif meth == "intersection":
+                        res_s = [x for x in o if x in other]
+                    elif meth == "union":
+                        res_s = list(o) + [x for x in other if x not in o]
+                    else:
+                        res_s = [x for x in o if x not in other] + [x for x in other if x not in o]
+                    return st.alloc("set", res_s)
                 if meth == "discard" and len(args) == 1:
                     if args[0] in o:
                         o.remove(args[0])
